@@ -20,6 +20,12 @@ func VerifEncodeValue(packet net.Buffers, seqNo uint64) []byte {
 	return out
 }
 
+// VerifEncodeValueRaw exposes encodeValue with the buffers as they are handed
+// to Persistence.Save.
+func VerifEncodeValueRaw(packet net.Buffers, seqNo uint64) net.Buffers {
+	return encodeValue(packet, seqNo)
+}
+
 // VerifDecodeValue exposes decodeValue.
 func VerifDecodeValue(buf []byte) ([]byte, uint64, error) { return decodeValue(buf) }
 
